@@ -256,3 +256,19 @@ PROPS['C06']['explanation'] = PROPS['C06']['explanation'].replace('NOT proved (b
 PROPS['C08']['explanation'] = ('E2: planted (model, A_V, scale) recovered through convolve_model_dir -> fit -> write_parameters, both formats, 1/3 apertures, permuted tables, mixed wavelength grids. '
                                'Every kernel it composes is proved elsewhere: C06/C07 (convolve loops, rebin), C01 (optimum), C02 (grid minimum), C04 (ranking), C09 (filter_table), C10 (fit loop); '
                                'the end-to-end composition through files and text is bounded.')
+
+# ---- Models._read_version_1/2 (distance grid, scaling) under contract ----------------------------
+RV1, RV2 = MOD + '_read_version_1', MOD + '_read_version_2'
+PROPS['C02']['e1'] = [RV1, RV2] + PROPS['C02']['e1']
+PROPS['C02']['assumptions'] = COMMON + [T_LOOP, D_ARGMIN, 'A-UNIT: unit model of sedvc/units.py',
+                                        'dep: np.logspace(a, b, n) = 10**(a + k (b-a)/(n-1)) with end points 10**a, 10**b; np.ceil / int; log10 strictly increasing, 10**x > 0, log10(10**x) = x '
+                                        '(ground instances at the terms of each query, sedvc/solver.py math_instances)',
+                                        'assumed: parfile.read, ConvolvedFluxes.read, os.path.exists (package I/O); SEDCube.read through its own contract; the domain conditions of '
+                                        'ConvolvedFluxes.interpolate on the package tables (increasing apertures) are assumptions on the data',
+                                        'two filters stand for any number; broadband filters given by name; memory mapping off (the memmap path stores float32 and is decided by the bounded run)',
+                                        'a float ceil at an exact multiple may add one grid point (outside A-REAL); remove_resolved is decided by the bounded run']
+PROPS['C02']['explanation'] = ('E1: Models._read_version_1 and _read_version_2 (separately): dmin == dmax gives the single distance dmin; otherwise n >= 2 log-uniform trial distances including both ends with '
+                               '(n-1) step >= log10(dmax/dmin) > (n-2) step (spacing within the step with the FEWEST points); for every filter the fluxes handed to the fitter are the result of '
+                               'ConvolvedFluxes.interpolate at the radii theta[arcsec] x d[pc] AU times (1 kpc/d)^2, logd = log10(d/kpc), filter wavelengths from the files. ConvolvedFluxes.interpolate '
+                               '(C13: linear in aperture, largest beyond, refusal below). Models.fit on the (model, distance, filter) grid: clipped 1-D optimum at every distance, chi^2 = fit + penalties, '
+                               'reported chi^2 <= chi^2 at every grid distance, scale = logd of the chosen distance. E2: the same through real packages, both formats, memmap on/off.')
